@@ -200,7 +200,7 @@ PROPS["C01"]["rule"] += ("; plus a name-length sweep (entries of drawn lengths 1
 _parts("C08", dict(pkg="props", test="TestC08Sweep", checks_scale=0.5))
 PROPS["C08"]["rule"] += "; plus the name-length sweep of C01 with the Add argument drawn from 8 spellings (relative, ./, trailing slashes, absolute, through a symlink, ../r/d0)"
 _parts("C10", dict(pkg="props", test="TestC10Overflow", single=True), dict(pkg="props", test="TestC10Sweep", checks_scale=0.25))
-PROPS["C10"]["rule"] += ("; plus overflow bursts (reader parked, max_queued_events + delta alternating attribute changes, delta from the seed; 1 burst quick / 10 thorough): ErrEventOverflow must arrive on Errors and nothing else, "
+PROPS["C10"]["rule"] += ("; plus overflow bursts (reader parked, max_queued_events + delta alternating attribute changes, delta from the seed; 1 burst quick / 10 thorough): ErrEventOverflow must arrive on Errors and nothing else (at most three values per burst), and a second burst on the same Watcher must be announced again, "
                          "then the exact oracle applies again to new operations and Add/Remove of a fresh directory must work; plus the name-length sweep of C01 (entry names of 1..255 bytes incl. every 16k-1/16k/16k+1, 239..255, "
                          "multi-byte and non-UTF-8 units): nothing may appear on Errors")
 _parts("C11", dict(pkg="props", test="TestC11Threads", checks_scale=0.25), dict(pkg="props", test="TestC11Ring", single=True))
